@@ -152,7 +152,7 @@ def gen(rng):
         configs.append({"minimize": minimize, "warm": [float(v) for v in feasible_guess]})
         configs.append({"minimize": minimize, "warm": [0.5] * n})
         configs.append({"minimize": minimize, "warm": [0.0] * (n + 1)})
-        configs.append({"minimize": minimize, "max_iter": rng.choice([1, 2, 4])})        # limits: MAX_ITER / FEASIBLE are fine,
+        configs.append({"minimize": minimize, "max_iter": rng.choice([1, 2, 4, 6, 8])})  # limits: MAX_ITER / FEASIBLE are fine,
         configs.append({"minimize": minimize, "max_nodes": rng.choice([1, 2]), "heuristics": rng.random() < 0.5})   # a wrong verdict is not
         configs.append({"minimize": minimize, "lns_iterations": 3, "seed": rng.randint(0, 99)})
         configs.append({"minimize": minimize, "solution_limit": 3})
